@@ -312,7 +312,13 @@ def run_conc(scenarios, wd, tag):
     def one(i):
         p = os.path.join(d, "s%04d.scn" % i)
         open(p, "w").write(scenarios[i])
-        r = subprocess.run([os.path.join(C.BIN, "concdrive"), p], env=dict(os.environ, GOLOG_LOG_LEVEL="fatal"), stdout=subprocess.PIPE, stderr=subprocess.PIPE, text=True, timeout=120)
+        try:
+            r = subprocess.run([os.path.join(C.BIN, "concdrive"), p], env=dict(os.environ, GOLOG_LOG_LEVEL="fatal"), stdout=subprocess.PIPE, stderr=subprocess.PIPE, text=True, timeout=60)
+        except subprocess.TimeoutExpired:
+            # the driver bounds every wait of its own (timeout_ms); only a call of the store made by the controller itself
+            # (final reads, Flush, Close) that never returns can keep it alive
+            return scenarios[i], {"stuck": ["<driver: a final Get/Flush/Close of the controller never returned within 60 s>"], "threads": [], "events": [],
+                                  "final": {}, "flushes_in_free_run": 0, "hung": True}, "driver killed after 60 s"
         try:
             return scenarios[i], json.loads(r.stdout), r.stderr[-500:]
         except Exception:
@@ -390,10 +396,93 @@ CKEYS = ["120607070701010a", "120607070702020b", "120607070701020c", "1206070708
 # keys in three buckets (bits=8: first digest byte 5, 6, 7), sharing leading bytes inside a bucket
 MKEYS = ["120605070701010a", "120605070702020b", "120606070701020c", "120606070801010d", "12060707070102ee", "120607070703010f"]
 
+def _coq_bytes(hexs):
+    if hexs in ("-", "nil", ""):
+        return "[]"
+    return "[" + ";".join(str(b) for b in bytes.fromhex(hexs)) + "]"
+
+def _model_scenario(rng):
+    """Put / Get / Remove only, keys of bucket 7, every thread runs to completion inside the schedule: replayable on Conc2."""
+    keys = rng.sample(CKEYS, rng.randint(2, 4))
+    vals = ["61", "6262", "636363", "-", "6464646464646464"]
+    setup = []
+    for k in keys:
+        if rng.random() < 0.6:
+            setup.append("setup put %s %s" % (k, rng.choice(vals)))
+    if setup and rng.random() < 0.6:
+        setup.append("setup flush")
+        if rng.random() < 0.5:
+            setup.append("setup put %s %s" % (rng.choice(keys), rng.choice(vals)))
+    writers, th = set(), []
+    for i in range(rng.randint(2, 4)):
+        kind = rng.choice(("put", "put", "get", "get", "remove"))
+        k = rng.choice(keys)
+        if kind in ("put", "remove"):
+            cand = [x for x in keys if x not in writers]
+            if not cand:
+                kind = "get"
+            else:
+                k = rng.choice(cand); writers.add(k)
+        th.append(("T%d" % i, "put %s %s" % (k, rng.choice(vals)) if kind == "put" else "%s %s" % (kind, k)))
+    names = [t[0] for t in th]
+    sched = [rng.choice(names) for _ in range(rng.randint(4, 16))] + names * 6      # everybody finishes inside the schedule
+    return "cfg bits=8 imax=1048576 pmax=1048576 timeout_ms=3000 model=1\n" + "\n".join(setup) + ("\n" if setup else "") + \
+           "".join("thread %s %s\n" % t for t in th) + "schedule " + " ".join(sched) + "\n"
+
+def _model_case(txt, r):
+    """Translate a finished run of a model=1 scenario into a Coq conc_case (or None if the run cannot be replayed)."""
+    setup, calls, names = [], [], []
+    for l in txt.split("\n"):
+        f = l.split()
+        if not f:
+            continue
+        if f[0] == "setup":
+            if f[1] == "put":
+                setup.append("OPut %s %s" % (_coq_bytes(f[2]), _coq_bytes(f[3])))
+            elif f[1] == "flush":
+                setup.append("OFlush [7]")
+            else:
+                return None
+        if f[0] == "thread":
+            names.append(f[1])
+            if f[2] == "put":
+                calls.append("QPut %s %s" % (_coq_bytes(f[3]), _coq_bytes(f[4])))
+            elif f[2] == "get":
+                calls.append("QGet %s" % _coq_bytes(f[3]))
+            elif f[2] == "remove":
+                calls.append("QRemove %s" % _coq_bytes(f[3]))
+            else:
+                return None
+    if r["stuck"]:
+        return None
+    idx = {n: i for i, n in enumerate(names)}
+    sched = []
+    for e in r["events"] or []:
+        t = idx[e["t"]]
+        pt = e["point"]
+        if pt == "index.Get.afterReadBucketInfo":
+            sched.append(t)                 # the bucket has been read: the lookup step
+        elif pt == "store.Put.afterPrimaryPut":
+            sched.append(t)                 # the record is in the primary pool
+        elif pt == "done":
+            sched += [t, t]                 # what is left: primary read / index mutation (extra steps are no-ops)
+    exp = []
+    for t in r["threads"]:
+        if t["op"] == "put":
+            exp.append({"ROk": "ROk", "RExists": "RExists"}.get(t["res"], "RErr"))
+        elif t["op"] == "get":
+            exp.append("RErr" if t["res"] != "ROk" else "RVal %s %s" % ("true" if t["found"] else "false", _coq_bytes(t["out"]) if t["found"] else "[]"))
+        elif t["op"] == "remove":
+            exp.append("RErr" if t["res"] != "ROk" else "RBool %s" % ("true" if t["found"] else "false"))
+    return "  ([%s],\n   [%s],\n   [%s]%%nat,\n   [%s])" % ("; ".join(setup), "; ".join(calls), "; ".join(map(str, sched)), "; ".join(exp))
+
 def _conc_scenarios(rng, n, gc):
     scen = []
     for _ in range(n):
         fam = rng.random()
+        if not gc and fam < 0.35:
+            scen.append(_model_scenario(rng))
+            continue
         if gc and fam < 0.3:
             # relocation-targeted: a low-use primary file whose last busy record is K; a caller works on K while a cycle relocates it
             K = "1206070707090909"
@@ -529,7 +618,23 @@ def _lin_check(ctx, gc):
                 viol.append(("schedule: " + bad, rp, True))
         elif nm and any(k["witness"] == "scn:" + nm for k in known):
             pass  # a recorded finding that no longer fails: nothing to report
+    mterms = []
+    for (txt, r, raw) in res:
+        if " model=1" in txt.split("\n")[0]:
+            mc = _model_case(txt, r)
+            if mc:
+                mterms.append((txt, mc))
+    mism, coq_s = C.coq_replay(mterms, wd, header="From STH Require Import Lex Index Store Refine Conc Conc2 ConcReplay.\nFrom Coq Require Import List NArith. Import ListNotations. Open Scope N_scope.\n",
+                               ctor_list="conc_case", fn="conc_mismatches") if mterms else ([], 0.0)
+    if mism and not viol:
+        txt = mism[0][0]
+        rp = C.save_replay(prop, "conccorr-%s.scn" % hashlib.sha1(txt.encode()).hexdigest()[:10],
+                           "# correspondence obligation broken: the atomic-step model (coq/theories/Conc2.v, exec2) run on the schedule observed at the yield points returns other results than the real store\n"
+                           "# on %d of %d replayed scenarios; the linearizability oracle found no failing scenario among %d\n%s" % (len(mism), len(mterms), len(scen), txt))
+        viol.append(("correspondence: atomic-step model and implementation disagree on %d of %d scenarios" % (len(mism), len(mterms)), rp, False))
     return viol, {"evaluations": len(scen), "distinct_nontrivial": len(nontriv), "scenarios_with_real_interleaving": interleaved,
+                  "scenarios_replayed_on_the_atomic_step_model": len(mterms), "traces_validated_against_impl": len(mterms) - len(mism),
+                  "correspondence_mismatches": len(mism), "coq_replay_s": round(coq_s, 1),
                   "samples": [{"scenario": scen[-1].strip().split("\n")}],
                   "schedule_rule": "2-4 calls (Put/Get/Has/GetSize/Remove/Flush" + (" + 1-2 GC cycles (primary / index) over flushed garbage in small files" if gc else "") +
                                    ") on 2-4 keys of one bucket sharing leading bytes, no two concurrent writers of one key, stepped through the yield points in a random order of 6-45 steps, "
